@@ -7,9 +7,16 @@
 package runtime
 
 import (
+	"encoding/json"
+	"fmt"
+	"os"
+	"sort"
+	"strings"
+	"sync"
 	"sync/atomic"
 
 	"github.com/cosi-project/runtime/pkg/controller/runtime/internal/reduced"
+	"github.com/cosi-project/runtime/pkg/state"
 )
 
 // Scheduler gate for model-based replay (compiled only with -tags verif): the delivery goroutine calls it after it has
@@ -32,4 +39,130 @@ func (runtime *Runtime) verifBeforeTrigger(k *reduced.Metadata) {
 	if f := verifDeliverGate.Load(); f != nil {
 		(*f)(k.Namespace, k.Typ, k.ID)
 	}
+}
+
+// Trace hooks of the notification pipeline (deduplication and delivery goroutines). A hook that reports the dedup map is called
+// by the goroutine that owns the map at that moment: after it received the map from a channel, before it sends it on. Lines
+// carry a process-wide sequence number; nothing is emitted unless VERIF_RUNTIME_TRACE=<file prefix> is set.
+type verifRT struct {
+	id atomic.Int64
+}
+
+var (
+	verifPipeSink atomic.Pointer[os.File]
+	verifPipeMu   sync.Mutex
+	verifPipeSeq  int64
+	verifRTSeq    atomic.Int64
+)
+
+func init() {
+	prefix := os.Getenv("VERIF_RUNTIME_TRACE")
+	if prefix == "" {
+		return
+	}
+
+	f, err := os.OpenFile(fmt.Sprintf("%s.%d.ndjson", prefix, os.Getpid()), os.O_CREATE|os.O_WRONLY|os.O_APPEND, 0o644)
+	if err != nil {
+		return
+	}
+
+	verifPipeSink.Store(f)
+}
+
+func (runtime *Runtime) verifEmit(ev string, fields map[string]any) {
+	f := verifPipeSink.Load()
+	if f == nil {
+		return
+	}
+
+	if runtime.verif.id.Load() == 0 {
+		runtime.verif.id.CompareAndSwap(0, verifRTSeq.Add(1))
+	}
+
+	verifPipeMu.Lock()
+	defer verifPipeMu.Unlock()
+
+	verifPipeSeq++
+
+	fields["seq"], fields["rt"], fields["ev"] = verifPipeSeq, runtime.verif.id.Load(), ev
+
+	line, err := json.Marshal(fields)
+	if err != nil {
+		return
+	}
+
+	f.Write(append(line, '\n')) //nolint:errcheck
+}
+
+func verifKey(k reduced.Key) string { return k.Namespace + "/" + k.Typ + "/" + k.ID }
+
+func verifVal(v reduced.Value) string {
+	return fmt.Sprintf("%s/%v", strings.ToLower(v.Phase.String()), v.FinalizersEmpty)
+}
+
+func verifMapOf(m dedup) [][2]string {
+	res := make([][2]string, 0, len(m))
+
+	for k, v := range m {
+		res = append(res, [2]string{verifKey(k), verifVal(v)})
+	}
+
+	sort.Slice(res, func(i, j int) bool { return res[i][0] < res[j][0] })
+
+	return res
+}
+
+// verifBatch: the dedup goroutine received a batch from the watch channel (before processing it). For every event: whether
+// its kind is served by the read cache and whether that cache was bootstrapped at this moment.
+func (runtime *Runtime) verifBatch(events []state.Event) {
+	if verifPipeSink.Load() == nil {
+		return
+	}
+
+	evs := make([]map[string]any, 0, len(events))
+
+	for _, e := range events {
+		m := map[string]any{"t": strings.ToLower(e.Type.String()), "k": "", "kind": "", "v": "", "cached": false, "boot": false}
+
+		if e.Resource != nil {
+			md := reduced.NewMetadata(e.Resource.Metadata())
+			m["k"], m["v"] = verifKey(md.Key), verifVal(md.Value)
+			m["kind"] = md.Namespace + "/" + md.Typ
+			m["cached"], m["boot"] = runtime.cache.IsHandledBootstrapped(md.Namespace, md.Typ)
+		}
+
+		evs = append(evs, m)
+	}
+
+	runtime.verifEmit("batch", map[string]any{"evs": evs})
+}
+
+// verifMap: what = "acquire" (the dedup goroutine got the map), "processed" (after processEvents), "handover" (about to send
+// the map to channel to).
+func (runtime *Runtime) verifMap(what string, m dedup, to string) {
+	if verifPipeSink.Load() == nil {
+		return
+	}
+
+	runtime.verifEmit(what, map[string]any{"m": verifMapOf(m), "to": to})
+}
+
+// verifTake: the delivery goroutine took key k out of the map and is about to send the rest to channel to.
+func (runtime *Runtime) verifTake(k *reduced.Metadata, m dedup, to string) {
+	if verifPipeSink.Load() == nil {
+		return
+	}
+
+	runtime.verifEmit("take", map[string]any{"k": verifKey(k.Key), "v": verifVal(k.Value), "m": verifMapOf(m), "to": to})
+}
+
+func (runtime *Runtime) verifTriggered(k *reduced.Metadata, controllers []string) {
+	if verifPipeSink.Load() == nil {
+		return
+	}
+
+	cs := append([]string{}, controllers...)
+	sort.Strings(cs)
+
+	runtime.verifEmit("trigger", map[string]any{"k": verifKey(k.Key), "ctrls": cs})
 }
